@@ -172,6 +172,8 @@ pub fn checks() -> Vec<Check> {
         stages: vec![
             st("c07.f1", c07::f1, (0, 0), 3, "4 files (2-5 pages) x every single-bit flip of every byte of every page x [validate_crc, raw_xml, open, every read op forwards and backwards on one reader]"),
             st("c07.f2", c07::f2, (0, 0), 3, "4 files x every page x {payload byte, checksum byte, last payload byte} damaged x all read-op histories of depth 3 (thorough 4) on one reader"),
+            st("c07.poll", c07::poll, (0, 0), 3, "2 packet geometries (17 / 300 points per packet) x cloud shifted through all 255 aligned page residues x every page of the cloud damaged (payload bit, checksum bit) x {raw, simple} iterator polled 3n+8 times past its errors: every delivered item equals the same-index item of the unaltered file"),
+            st("c07.big", c07::big, (0, 0), 3, "files of 255, 256, 257, 300, 513, 770 pages x every page damaged in turn (one payload bit, one checksum bit): validate_crc must fail, and must pass on the unaltered file"),
             Stage { hw_compare: true, ..st("c07.f6", c07::f6, (0, 0), 3, "backend comparison: all writer programs of depth <=2 (file bytes) and damaged-file verdict vectors, executed with the built-in CRC and with the crc32c feature; per-case observations must be identical") },
         ],
         extra: Some(c07::extra),
